@@ -123,7 +123,9 @@ func (SlidingWindow) New(cfg Config) fiber.Handler {
 			e = manager.get(key)
 			e.currHits--
 			remaining++
-			manager.set(key, e, cfg.Expiration)
+			// keep the entry until the end of the next window, as above: a shorter TTL would
+			// forget the hits of this window before they stop counting
+			manager.set(key, e, time.Duration(resetInSec+expiration)*time.Second) //nolint:gosec // Not a concern
 			// Unlock entry
 			mux.Unlock()
 		}
